@@ -87,6 +87,9 @@ def check_template(ctx, t, sweep=True):
         S_by_runner[runner] = steps
     if not sweep or R.get("trace") is None:
         return
+    if not rt.TAPS_OK.get("step"):
+        ctx.inconc("superstep tap target missing: the max_iterations sweep cannot be decided")
+        return
     # ---- max_iterations sweep ----
     for runner in ("sync", "async"):
         steps = S_by_runner.get(runner)
